@@ -17,6 +17,10 @@ reaches the rules in the same shape:
                                       target read on the right-hand side)
   K8  a = b = CONST               ->  a = CONST; b = CONST
   K11 k = c; for x in IT: BODY; k += 1  ->  for k, x in enumerate(IT, c)
+  K12 k = a; while k < N [and C]: BODY; k += s  ->  for k in range(a, N, s):
+                                      [if not C: break]; BODY   (k, N
+                                      not written in BODY, no continue, k
+                                      not read after the loop)
   K10 for x in (a, b): BODY       ->  BODY[a]; BODY[b]  (names only, short
                                       straight-line body)
   K9  t = delayed(f); t(x)        ->  delayed(f)(x)     (t bound once and
@@ -337,8 +341,113 @@ class Canon(ast.NodeTransformer):
             i += 1
         return out
 
+    def _while_counters(self, body):
+        """K12  k = a; while k < N [and C]: BODY; k += s  ->
+                for k in range(a, N[, s]): [if not C: break]; BODY"""
+        out = list(body)
+        fn = self.cur_fn
+        i = 0
+        while i < len(out):
+            st = out[i]
+            if fn is not None and isinstance(st, ast.Assign) and len(
+                    st.targets) == 1 and isinstance(
+                        st.targets[0], ast.Name) and _pure(st.value):
+                k = st.targets[0].id
+                j = i + 1
+                while j < len(out) and k not in _names(out[j]) and not (
+                        _names(st.value) & _stores(out[j])):
+                    j += 1
+                lp = out[j] if j < len(out) else None
+                new = self._while_to_for(lp, k, st, fn) if isinstance(
+                    lp, ast.While) else None
+                if new is not None:
+                    out = out[:i] + out[i + 1:j] + [new] + out[j + 1:]
+                    self.applied["K12"] = self.applied.get("K12", 0) + 1
+                    continue
+            i += 1
+        return out
+
+    def _while_to_for(self, lp, k, init, fn):
+        if lp.orelse or len(lp.body) < 2:
+            return None
+        inc = lp.body[-1]
+        if not (isinstance(inc, ast.AugAssign) and isinstance(
+                inc.target, ast.Name) and inc.target.id == k and isinstance(
+                    inc.op, ast.Add) and isinstance(inc.value, ast.Constant)
+                and type(inc.value.value) is int and inc.value.value >= 1):
+            return None
+        test = lp.test
+        rest = None
+        if isinstance(test, ast.BoolOp) and isinstance(test.op, ast.And):
+            first = test.values[0]
+            rest = test.values[1:]
+        else:
+            first = test
+        if not (isinstance(first, ast.Compare) and len(first.ops) == 1):
+            return None
+        a, op, b = first.left, first.ops[0], first.comparators[0]
+        if isinstance(a, ast.Name) and a.id == k and isinstance(
+                op, (ast.Lt, ast.LtE)):
+            bound, incl = b, isinstance(op, ast.LtE)
+        elif isinstance(b, ast.Name) and b.id == k and isinstance(
+                op, (ast.Gt, ast.GtE)):
+            bound, incl = a, isinstance(op, ast.GtE)
+        else:
+            return None
+        inner = lp.body[:-1]
+        if not _pure(bound) or k in _names(bound):
+            return None
+        written = set()
+        for s_ in inner:
+            written |= _stores(s_)
+        if k in written or (_names(bound) & written):
+            return None
+        # attribute / subscript bounds could be changed by calls in the body:
+        # accept only names, constants and len() of a name
+        okb = all(isinstance(x, (ast.Name, ast.Constant, ast.Load, ast.Call,
+                                 ast.BinOp, ast.Add, ast.Sub))
+                  for x in ast.walk(bound)) and all(
+                      isinstance(x.func, ast.Name) and x.func.id == "len"
+                      for x in ast.walk(bound) if isinstance(x, ast.Call))
+        if not okb:
+            return None
+        from .inline import _loop_level_jumps
+        if any(isinstance(x, ast.Continue)
+               for x in _loop_level_jumps(inner)):
+            return None
+        in_loop = {id(n) for n in ast.walk(lp)}
+        after = [n for n in ast.walk(fn) if isinstance(n, ast.Name)
+                 and n.id == k and id(n) not in in_loop
+                 and n is not init.targets[0]]
+        if after:
+            return None
+        stop = bound if not incl else ast.BinOp(
+            left=bound, op=ast.Add(), right=ast.Constant(value=1))
+        args = [init.value, stop]
+        if isinstance(init.value, ast.Constant) and init.value.value == 0 \
+                and inc.value.value == 1:
+            args = [stop]
+        elif inc.value.value != 1:
+            args.append(ast.Constant(value=inc.value.value))
+        body = list(inner)
+        if rest:
+            cond = rest[0] if len(rest) == 1 else ast.BoolOp(
+                op=ast.And(), values=rest)
+            body = [ast.If(test=ast.UnaryOp(op=ast.Not(), operand=cond),
+                           body=[ast.Break()], orelse=[])] + body
+        new = ast.For(target=ast.Name(id=k, ctx=ast.Store()),
+                      iter=ast.Call(func=ast.Name(id="range", ctx=ast.Load()),
+                                    args=args, keywords=[]),
+                      body=body, orelse=[], type_comment=None)
+        ast.copy_location(new, lp)
+        for x in ast.walk(new):
+            if not hasattr(x, "lineno"):
+                ast.copy_location(x, lp)
+        ast.fix_missing_locations(new)
+        return new
+
     def _loops_to_comps(self, body):
-        out = self._manual_counters(list(body))
+        out = self._manual_counters(self._while_counters(list(body)))
         i = 0
         while i < len(out):
             st = out[i]
@@ -585,6 +694,11 @@ class Canon(ast.NodeTransformer):
                                  if k.arg != "start"]
                 self.applied["K5"] += 1
         return node
+
+
+def _stores(node):
+    return {n.id for n in ast.walk(node) if isinstance(n, ast.Name)
+            and isinstance(n.ctx, (ast.Store, ast.Del))}
 
 
 def _copy(t):
